@@ -14,6 +14,8 @@
 //	T <entry arg nid> <n1,n2,...>          (origin first, entry argument last — the order of backtrace.Trace)
 //	B <entry arg nid>                      (event: visit(arg) started — one per ENTRYPOINT log line, in run order)
 //	A <nid>                                (event: addNext added this node — one per "Adding" trace line, in run order)
+//	V <nid> <call trace> <closure trace>   (event: a popped node reached the switch — from traceNode's "Visiting" /
+//	                                        "Element trace" / "Element closure trace" lines; traces root first)
 //	X <text>                               (analysis error / panic text; the run continues)
 //	END
 //
@@ -420,8 +422,22 @@ func (d *dumper) dumpGraph() {
 type evWriter struct {
 	mu     sync.Mutex
 	lg     *config.LogGroup
-	events []string // "B g.n" / "A g.n"
+	events []string // "B g.n" / "A g.n" / "V g.n t,t,..|c,c,.."
 	trace  bool
+	pendN  string
+	pendT  string
+}
+
+func allIDs(s string) string {
+	ms := idRe.FindAllStringSubmatch(s, -1)
+	if len(ms) == 0 {
+		return "-"
+	}
+	out := make([]string, len(ms))
+	for i, m := range ms {
+		out[i] = m[1] + "." + m[2]
+	}
+	return strings.Join(out, ",")
 }
 
 var idRe = regexp.MustCompile(`\[#(\d+)\.(\d+)\]`)
@@ -441,6 +457,15 @@ func (e *evWriter) Write(p []byte) (int, error) {
 		if m := idRe.FindStringSubmatch(s[i:]); m != nil {
 			e.events = append(e.events, "A "+m[1]+"."+m[2])
 		}
+	} else if i := strings.Index(s, "Visiting *"); i >= 0 {
+		if m := idRe.FindStringSubmatch(s[i:]); m != nil {
+			e.pendN = m[1] + "." + m[2]
+		}
+	} else if i := strings.Index(s, "Element trace: "); i >= 0 && e.pendN != "" {
+		e.pendT = allIDs(s[i:])
+	} else if i := strings.Index(s, "Element closure trace: "); i >= 0 && e.pendN != "" {
+		e.events = append(e.events, "V "+e.pendN+" "+e.pendT+" "+allIDs(s[i:]))
+		e.pendN = ""
 	}
 	return len(p), nil
 }
@@ -607,11 +632,27 @@ func runDir(w *bufio.Writer, dir string, onDemand bool, sinksAsBt bool, prog *ss
 			byLong[fmt.Sprintf("%d.%d", g.ID, n.ID())] = d.nid[n]
 		}
 	}
+	mapIDs := func(l string) string {
+		if l == "-" {
+			return "-"
+		}
+		parts := strings.Split(l, ",")
+		for i, x := range parts {
+			parts[i] = fmt.Sprint(byLong[x])
+		}
+		return strings.Join(parts, ",")
+	}
 	for _, e := range ev.events {
-		if id, ok := byLong[e[2:]]; ok {
-			fmt.Fprintf(w, "%s %d\n", e[:1], id)
-		} else {
+		f := strings.Fields(e)
+		id, ok := byLong[f[1]]
+		if !ok {
 			fmt.Fprintf(w, "X unknown node in event %s\n", e)
+			continue
+		}
+		if f[0] == "V" {
+			fmt.Fprintf(w, "V %d %s %s\n", id, mapIDs(f[2]), mapIDs(f[3]))
+		} else {
+			fmt.Fprintf(w, "%s %d\n", f[0], id)
 		}
 	}
 	fmt.Fprintf(w, "END\n")
